@@ -143,7 +143,12 @@ pub fn eval_v<A: HC>(v: &V) -> R<Seq<A>> {
                     bits.push((code >> b) & 1 == 1);
                 }
             }
-            Seq::<A>::from(&bits[*off..])
+            // both unstable raw constructors: From<&BitSlice> (odd offsets) and From<BitVec> (even offsets; the vector keeps the head)
+            if off % 2 == 0 {
+                Seq::<A>::from(bits[*off..].to_bitvec())
+            } else {
+                Seq::<A>::from(&bits[*off..])
+            }
         }
         V::CloneOf(v) => {
             let s = eval_v::<A>(v)?;
@@ -489,6 +494,17 @@ pub fn query<A: HC>(q: &str, t: &mut Toks) -> R<String> {
             let n = v.len();
             let w = (i % 3) + 1;
             // indexing written directly on the owned value (an `Index` impl on `Seq` itself would take precedence)
+            // the remaining one-line delegations: Default, Borrow for &Seq, AsRef for SeqSlice
+            {
+                use std::borrow::Borrow;
+                let d: Seq<A> = Default::default();
+                let b: &SeqSlice<A> = <&Seq<A> as Borrow<SeqSlice<A>>>::borrow(&r);
+                let b2: &SeqSlice<A> = <Seq<A> as Borrow<SeqSlice<A>>>::borrow(r);
+                let a: &SeqSlice<A> = AsRef::<SeqSlice<A>>::as_ref(b);
+                if !d.is_empty() || d.len() != 0 || content(b) != content(&v) || content(b2) != content(&v) || content(a) != content(&v) {
+                    return Err(Fail::BadOp("PROPFAIL:default/borrow/as_ref".into()));
+                }
+            }
             let idx = if i <= n {
                 format!("{} {} {} {}", content(&v[i / 2..i]), content(&v[i / 2..]), content(&r[..i]), content(&v[..]))
             } else {
